@@ -15,6 +15,7 @@
 package s3proxy
 
 import (
+	"bytes"
 	"context"
 	"crypto/sha256"
 	"encoding/base64"
@@ -592,6 +593,12 @@ func (s *S3Proxy) UploadPart(ctx context.Context, input *s3.UploadPartInput) (*s
 		input.SSECustomerKeyMD5 = nil
 	}
 
+	// an empty body is sent as such (with Content-Length: 0): a reader
+	// of unknown length would be sent chunked, without a length
+	if input.ContentLength != nil && *input.ContentLength == 0 {
+		input.Body = bytes.NewReader(nil)
+	}
+
 	// streaming backend is not seekable,
 	// use unsigned payload for streaming ops
 	output, err := s.client.UploadPart(ctx, input, s3.WithAPIOptions(
@@ -748,6 +755,12 @@ func (s *S3Proxy) PutObject(ctx context.Context, input s3response.PutObjectInput
 		if err == nil {
 			expire = &exp
 		}
+	}
+
+	// an empty body is sent as such (with Content-Length: 0): a reader
+	// of unknown length would be sent chunked, without a length
+	if input.ContentLength != nil && *input.ContentLength == 0 {
+		input.Body = bytes.NewReader(nil)
 	}
 
 	// streaming backend is not seekable,
